@@ -13,6 +13,7 @@ ASSETS = ["A", "B", "C"]
 SYM = dict((a, "EQ:" + a) for a in ASSETS + ["D", "E", "QQ", "ZYX"])      # the extra names: implementation-vs-implementation runs only
 WD = ["MON", "TUE", "WED", "THU", "FRI"]
 PRICE_LEVELS = [8000, 10000, 12500, 16000]
+ZERO_LIT = -1                  # in a market written by write_market: the cell holds a literal 0.0 (0 itself means: blank)
 
 
 def is_bday(d):
@@ -161,7 +162,25 @@ def gen_config(rng, alpha_kinds=("fixed", "single"), allow_fail=True):
     h = zlib.crc32(json.dumps(cfg, sort_keys=True).encode())
     if h % 6 == 0:
         cfg["cash"] = [40000, 64000, 100000][(h // 6) % 3]
+    # a seventh of the January configurations are moved two weeks back, into the turn of the year: Wednesday 25 December
+    # 2019 and Wednesday 1 January 2020 are business days like any other for the clock, the schedules, the exchange and
+    # the bar files (the library knows no holidays)
+    if h % 7 == 3 and cfg["start"] // 1440 < 18300:
+        shift_config(cfg, -14)
     return cfg
+
+
+def shift_config(c, days):
+    """The same configuration `days` (a multiple of 7: weekdays are kept) later or earlier."""
+    assert days % 7 == 0
+    m = days * 1440
+    c["start"] += m
+    c["end"] += m
+    if c["burn"] != -1:
+        c["burn"] += m
+    c["entry"] = dict((a, (e + m if e > 0 else e)) for a, e in c["entry"].items())
+    c["market"] = dict((a, dict((int(d) + days, v) for d, v in bars.items())) for a, bars in c["market"].items())
+    return c
 
 
 def add_exit(c, rng):
@@ -247,7 +266,8 @@ def write_market(dirpath, market, rng=None, adj=None, intfmt=False):
             for d, (o, c) in rows:
                 date = (EPOCH + pd.Timedelta(days=d)).strftime("%Y-%m-%d")
                 # intfmt: whole numbers are written the way many vendors write them, without a decimal point ("16", not "16.0")
-                f = lambda x: "" if x == 0 else (str(x // 1000) if intfmt and x % 1000 == 0 else repr(x / 1000.0))
+                # (0 = a blank cell; ZERO_LIT = a literal 0.0; a negative number is written as it is: corrupt ticks - two-world runs only)
+                f = lambda x: "" if x == 0 else ("0.0" if x == ZERO_LIT else (str(x // 1000) if intfmt and x % 1000 == 0 and x > 0 else repr(x / 1000.0)))
                 cell = {"Date": date, "Open": f(o), "High": f(99000), "Low": f(1000), "Close": f(c), "Adj Close": f(adjmap.get(str(d), c)), "Volume": "1000"}
                 fh.write(",".join(cell[k] for k in cols) + "\n")
 
